@@ -29,6 +29,9 @@ func runC07(p *eng.Prog, r *eng.Report, tier string) {
 	// a response whose rest is not read is parsed as top-level stanzas, which get replies
 	handoffDrained(c, "C07.7")
 	attrGetNotUsed(c, "C07.12")
+	serveCtxRootedInBackground(c, "C07.15")
+	depthCountersDoNotWrap(c, "C07.16")
+	jidCore(c, "C07.14")
 	// the multiplexer's fallback answers with the id and type that stanza.NewIQ
 	// read: the request's own attributes (C14.6)
 	c14OwnAttrs(c, "C07.13")
@@ -615,4 +618,45 @@ func c07DetectorCountsAcceptedTokens(c *cx, id string) {
 		}
 	}
 	c.r.Floor(id, "state writes of the reply detector", n, 3)
+}
+
+// depthCountersDoNotWrap (C07.16 / C05.18 / C08.15 / C01.20): the counters that
+// decide "is this the top-level element" / "how many features were listed" are
+// plain machine integers of at least 32 bits: a uint8 depth wraps at 256 and an
+// element nested 256 levels deep counts as top-level (an iq-named child is
+// taken for the reply; a features list with 256 entries is taken for empty).
+func depthCountersDoNotWrap(c *cx, id string) {
+	fields := []string{"xmpp.responseChecker.level", "xmpp.stanzaEncoder.depth", "internal/stream.reader.depth", "xmpp.streamFeaturesList.total"}
+	n := 0
+	pk := map[string]bool{}
+	for _, f := range c.allFns() {
+		if f.Pkg == nil || pk[f.Pkg.PkgPath] {
+			continue
+		}
+		pk[f.Pkg.PkgPath] = true
+		sc := f.Pkg.Types.Scope()
+		for _, nm := range sc.Names() {
+			tn, ok := sc.Lookup(nm).(*types.TypeName)
+			if !ok {
+				continue
+			}
+			st, ok := tn.Type().Underlying().(*types.Struct)
+			if !ok {
+				continue
+			}
+			for i := 0; i < st.NumFields(); i++ {
+				cls := eng.TypeStr(tn.Type()) + "." + st.Field(i).Name()
+				for _, want := range fields {
+					if cls != want {
+						continue
+					}
+					n++
+					b, _ := st.Field(i).Type().Underlying().(*types.Basic)
+					okw := b != nil && (b.Kind() == types.Int || b.Kind() == types.Int64 || b.Kind() == types.Uint64 || b.Kind() == types.Uint || b.Kind() == types.Int32 || b.Kind() == types.Uint32)
+					c.r.CheckNamed(id, cls, "counter width", "K: nesting and list counters are at least 32 bits wide", st.Field(i).Pos(), okw, "the counter is a "+st.Field(i).Type().String()+": it wraps after a few hundred elements and the wrapped value reads as 'top level' / 'empty'")
+				}
+			}
+		}
+	}
+	c.r.Floor(id, "nesting / list counters found", n, 4)
 }
